@@ -40,6 +40,26 @@ macro_rules! with_type {
     };
 }
 
+/// A compound with its OWN way to walk directories (C11: `Arc<T>` must list like `T`): it takes the files a `M3` would
+/// take (extensions a, b) but does not descend into sub-directories whose name starts with `a` or `_`.
+pub struct Cust(#[allow(dead_code)] String);
+fn cust_pruned(id: &str) -> bool { let last = id.rsplit('.').next().unwrap_or(id); last.starts_with('a') || last.starts_with('_') }
+impl assets_manager::Compound for Cust {
+    fn load(cache: assets_manager::AnyCache, id: &assets_manager::SharedString) -> Result<Self, BoxedError> { Ok(Cust(cache.load::<M3>(id)?.read().show())) }
+}
+impl assets_manager::asset::DirLoadable for Cust {
+    fn select_ids(cache: assets_manager::AnyCache, id: &assets_manager::SharedString) -> std::io::Result<Vec<assets_manager::SharedString>> {
+        use assets_manager::source::{DirEntry, Source};
+        let mut ids = Vec::new();
+        cache.raw_source().read_dir(id, &mut |e| { if let DirEntry::File(i, ext) = e { if ext == "a" || ext == "b" { ids.push(i.into()); } } })?;
+        Ok(ids)
+    }
+    fn sub_directories(cache: assets_manager::AnyCache, id: &assets_manager::SharedString, mut f: impl FnMut(&str)) -> std::io::Result<()> {
+        use assets_manager::source::{DirEntry, Source};
+        cache.raw_source().read_dir(id, &mut |e| { if let DirEntry::Directory(d) = e { if !cust_pruned(d) { f(d); } } })
+    }
+}
+
 fn err_of(e: &assets_manager::Error) -> String {
     // a RecursiveDirectory error wraps the Directory's `Error`, which wraps the io::Error
     let mut r: &(dyn std::error::Error + 'static) = e.reason();
@@ -65,6 +85,11 @@ fn op_ld<T: Asset>(cache: &AssetCache<Wrap>, rec_mode: bool, arc: bool, id: &str
         (true, true) => cache.load_rec_dir::<Arc<T>>(id).map(|h| h.read().ids().map(|s| s.to_string()).collect()).map_err(|e| err_of(&e)),
     };
     ids
+}
+
+fn op_cu<T: assets_manager::asset::DirLoadable>(cache: &AssetCache<Wrap>, rec_mode: bool, id: &str) -> Result<Vec<String>, String> {
+    if rec_mode { cache.load_rec_dir::<T>(id).map(|h| h.read().ids().map(|s| s.to_string()).collect()).map_err(|e| err_of(&e)) }
+    else { cache.load_dir::<T>(id).map(|h| h.read().ids().map(|s| s.to_string()).collect()).map_err(|e| err_of(&e)) }
 }
 
 fn op_it<T: Asset + Loaded>(cache: &AssetCache<Wrap>, rec_mode: bool, _arc: bool, id: &str) -> Result<Vec<String>, String> {
@@ -132,10 +157,11 @@ impl Engine for DirEngine {
             else { (gen_tree(rng, tier), kinds[idx % 4], *rng.pick(&[DirMembers::All, DirMembers::All, DirMembers::Some, DirMembers::None])) };
         let mut l = vec![];
         let dir_ids: Vec<String> = std::iter::once(String::new()).chain(t.dirs.iter().map(|q| join_id(q))).collect();
-        if idx >= 4 * N_SMALL && !t.dirs.is_empty() && rng.chance(1, 4) {
+        let mut denied: Vec<String> = vec![];
+        if idx >= 4 * N_SMALL && !t.dirs.is_empty() && rng.chance(2, 5) {
             let n = rng.range(1, 2);
-            let d: Vec<String> = (0..n).map(|_| hexs(&dir_ids[rng.range(1, dir_ids.len() - 1)])).collect();
-            l.push(format!("s.deny {}", d.join(" ")));
+            denied = (0..n).map(|_| dir_ids[rng.range(1, dir_ids.len() - 1)].clone()).collect();
+            l.push(format!("s.deny {}", denied.iter().map(|d| hexs(d)).collect::<Vec<_>>().join(" ")));
         }
         let (order, ds) = (rng.below(5), rng.below(3));
         l.extend(setup_lines(&t, rng, kind, dm, order, ds, false));
@@ -151,6 +177,15 @@ impl Engine for DirEngine {
                 5 => { if let Some(f) = (!t.files.is_empty()).then(|| rng.pick(&t.files)) { l.push(format!("get {k} {}", hexs(&f.id()))); } l.push(format!("ic {mode} {k} 0 {}", hexs(&target))); }
                 _ => l.push(format!("ic {mode} {k} 0 {}", hexs(&target))),
             }
+        }
+        if denied.is_empty() { for _ in 0..rng.range(1, 3) { let target = rng.pick(&dir_ids).clone(); l.push(format!("cu {} {}", if rng.chance(3, 4) { "r" } else { "d" }, hexs(&target))); } }
+        // an unreadable sub-directory must cost exactly its own subtree: recursive listings rooted at its parent and at the
+        // root (siblings listed before AND after it have to survive)
+        for d in &denied {
+            let k = rng.below(EXT_LISTS.len());
+            let par = crate::types::parent_id(d).unwrap_or("").to_string();
+            l.push(format!("ld r {k} {} {}", rng.below(2), hexs(&par)));
+            l.push(format!("ld r {} 0 {}", rng.below(EXT_LISTS.len()), hexs("")));
         }
         l
     }
@@ -241,6 +276,39 @@ impl Engine for DirEngine {
                         let msg = format!("{cls} {} source, {} {} exts={exts:?} id={id:?}: {p}", s.kind, w[0], if rec_mode { "load_rec_dir" } else { "load_dir" });
                         if cls == "dir-ids-mismatch" { fresh.push(msg) } else { known.push(msg) }
                     }
+                }
+                "cu" => {
+                    // custom DirLoadable: `Cust` and `Arc<Cust>` against the tree (pruned walk); the model has no such type
+                    let Some(c) = cache.as_ref() else { rec.op(line.clone(), "no-source"); continue };
+                    let rec_mode = w[1] == "r";
+                    let id = unhexs(w[2]);
+                    rec.nontrivial = true;
+                    rec.stat(format!("cu/{}", if rec_mode { "rec" } else { "dir" }));
+                    let plain = op_cu::<Cust>(c, rec_mode, &id);
+                    let arc = op_cu::<Arc<Cust>>(c, rec_mode, &id);
+                    let want: Option<Vec<String>> = if !s.of_tree() || !s.deny.is_empty() { None } else if !s.tree.is_dir(&id) { Some(vec!["<err>".into()]) } else {
+                        let t = &s.tree;
+                        let direct = |dir: &str| -> Vec<String> { let mut v: Vec<String> = t.files.iter().filter(|f| join_id(&f.dir) == dir && (f.ext == "a" || f.ext == "b")).map(|f| f.id()).collect(); v.sort(); v.dedup(); v };
+                        let mut out = vec![];
+                        if rec_mode {
+                            for sub in t.dirs_below(&id) {
+                                // no pruned component strictly below `id` on the way to `sub`
+                                let rel = if id.is_empty() { sub.clone() } else if sub == id { String::new() } else { sub[id.len() + 1..].to_string() };
+                                let mut acc = id.clone(); let mut ok = true;
+                                for comp in rel.split('.').filter(|c| !c.is_empty()) { acc = if acc.is_empty() { comp.to_string() } else { format!("{acc}.{comp}") }; if cust_pruned(&acc) { ok = false; } }
+                                if ok { out.extend(direct(&sub)); }
+                            }
+                            out.sort();
+                        } else { out = direct(&id); }
+                        Some(out)
+                    };
+                    let norm = |r: &Result<Vec<String>, String>| -> Vec<String> { match r { Ok(v) => { let mut v = v.clone(); if rec_mode { v.sort(); } v } Err(_) => vec!["<err>".into()] } };
+                    let (p, a) = (norm(&plain), norm(&arc));
+                    let implicit = s.is_archive() && !implicit_dirs(&s.tree, &s.members).is_empty();
+                    let mut agree = p == a;
+                    if !agree { fresh.push(format!("dir-ids-mismatch {} source, custom DirLoadable id={id:?} rec={rec_mode}: Arc<T> lists {a:?} but T lists {p:?}", s.kind)); }
+                    if let Some(wv) = want { if !implicit && p != wv { agree = false; fresh.push(format!("dir-ids-mismatch {} source, custom DirLoadable id={id:?} rec={rec_mode}: listed {p:?}, the tree (pruned walk) says {wv:?}", s.kind)); } }
+                    rec.op("dir.cust".to_string(), if agree { "agree" } else { "differ" });
                 }
                 "get" => {
                     let Some(c) = cache.as_ref() else { rec.op(line.clone(), "no-source"); continue };
